@@ -1,5 +1,6 @@
 import Qv.Model.Basic
 import Qv.Model.Arith
+import Qv.Model.Convert
 import Qv.Model.Kernel
 /-!
 # Qv.Model.AnnealFront — the Python front ends of `qubovert/sim/_anneal.py`
@@ -46,12 +47,13 @@ def Obj.getItem (o : Obj) (key : Key) : Except Err Rat := do
   pure (get o.terms k)
 
 /-- `self[key] = value` : squash; if `value` is nonzero register the labels of the *squashed* key in
-`_variables`; store (zero removes); then (labelled types) register every label of the *raw* key in
-`_mapping`. -/
+`_variables`; store (zero removes); then (labelled types) register those labels of the *raw* key that are
+variables by now in `_mapping` (`if i in self._variables and i not in self._mapping`). -/
 def Obj.setItem (o : Obj) (key : Key) (value : Rat) : Except Err Obj := do
   let k ← squash o.kind key
   let vars := if value ≠ 0 then k.foldl addNew o.vars else o.vars
-  let mapping := if isLabelled o.kind then key.foldl addNew o.mapping else o.mapping
+  let mapping := if isLabelled o.kind then
+      key.foldl (fun m i => if vars.contains i then addNew m i else m) o.mapping else o.mapping
   pure { o with terms := set o.terms k value, vars := vars, mapping := mapping }
 
 /-- `self[key] += v` -/
@@ -95,9 +97,8 @@ def toPuso (o : Obj) : Except Err Poly := do
 
 /-- `qubo_to_quso` -/
 def quboToQuso (Q : Obj) : Except Err Obj :=
-  let sq : Key → Except Err Key :=
-    if Q.kind = .qubom ∨ Q.kind = .qubo then (fun k => .ok k) else squash .qubo
-  let target : Kind := if Q.kind = .qubom then .qusom else .quso
+  let sq : Key → Except Err Key := srcSquashQubo Q.kind
+  let target : Kind := kindQuboToQuso Q.kind   -- Matrix type in ⇒ `QUSOMatrix()`, else `QUSO()`
   Q.terms.foldlM (fun L kv => do
     let k ← sq kv.1
     let v := kv.2
@@ -120,7 +121,7 @@ def genKV : Key → List (Key × Rat)
 
 /-- `pubo_to_puso` -/
 def puboToPuso (P : Obj) : Except Err Obj :=
-  let target : Kind := if P.kind = .pubom then .pusom else .puso
+  let target : Kind := kindPuboToPuso P.kind    -- Matrix type in ⇒ `PUSOMatrix()`, else `PUSO()`
   P.terms.foldlM (fun H kv =>
     (genKV kv.1).foldlM (fun H kv' => H.iadd kv'.1 (kv'.2 * kv.2)) H) { kind := target }
 
